@@ -102,3 +102,89 @@ func verifH_C06_table() {
 	verifCover(!ok, "absent")
 	verifReach("end")
 }
+
+// verifHaver is the chunkReader a memtable is written against (the chunks an existing table already holds): hasMany
+// marks exactly the addresses in |have|. Only hasMany is used by memTable.write.
+type verifHaver struct {
+	chunkReader
+	have map[hash.Hash]bool
+}
+
+func (v verifHaver) hasMany(addrs []hasRecord, keeper keeperF) (bool, gcBehavior, error) {
+	remaining := false
+	for i := range addrs {
+		if v.have[*addrs[i].a] {
+			addrs[i].has = true
+		} else if !addrs[i].has {
+			remaining = true
+		}
+	}
+	return remaining, gcBehavior_Continue, nil
+}
+
+// H-C06-memtable-write: memTable.write against a table that already holds an arbitrary subset of the memtable's chunks
+// (those are dropped): the table it produces parses back to exactly the chunks that were NOT already present, the
+// reported chunk count is their number, and the reported split offset (the length of the chunk-record region, which
+// the blobstore persister stores as a separate blob and conjoin lays out by) is exactly where the index starts: the
+// end of the last chunk record.
+// bounds: 2 chunks (symbolic distinct addresses, 1..2 symbolic bytes), every subset already present.
+func verifH_C06_memtable_write() {
+	verifPanicIsViolation()
+	mt := newMemTable(1 << 20)
+	mt.snapper = verifSnappy{}
+	n := 2
+	addrs := make([]hash.Hash, n)
+	datas := make([][]byte, n)
+	have := map[hash.Hash]bool{}
+	fresh := 0
+	for i := 0; i < n; i++ {
+		addrs[i] = verifNondetHash("addr")
+		for j := 0; j < i; j++ {
+			verifAssume(addrs[i] != addrs[j])
+		}
+		dl := verifConcrete(verifNondetIntRange("datalen", 1, 2), 4)
+		datas[i] = verifNondetBytes("data", dl)
+		verifAssert(mt.addChunk(addrs[i], datas[i]) == chunkAdded, "added")
+		if verifNondetBool("already-in-an-existing-table") {
+			have[addrs[i]] = true
+		} else {
+			fresh++
+		}
+	}
+	_, data, split, count, _, err := mt.write(verifHaver{have: have}, nil, &Stats{})
+	verifAssert(err == nil, "write-ok")
+	if err != nil {
+		return
+	}
+	verifObserve("count", uint64(count))
+	verifObserve("split", split)
+	verifAssert(int(count) == fresh, "chunk-count-is-the-number-of-new-chunks")
+	flen := uint64(len(data))
+	idxStart := flen - indexSize(count) - footerSize
+	verifAssert(split == idxStart, "split-offset-is-where-the-index-starts")
+	idx, perr := parseTableIndex(context.Background(), data[idxStart:], &UnlimitedQuotaProvider{})
+	verifAssert(perr == nil, "parse-ok")
+	if perr != nil {
+		return
+	}
+	verifAssert(idx.chunkCount() == count, "index-count")
+	var end uint64
+	for i := 0; i < n; i++ {
+		e, ok, lerr := idx.lookup(&addrs[i])
+		verifAssert(lerr == nil, "lookup-ok")
+		verifAssert(ok == !have[addrs[i]], "exactly-the-new-chunks-are-in-the-table")
+		if ok {
+			if e.Offset()+uint64(e.Length()) > end {
+				end = e.Offset() + uint64(e.Length())
+			}
+			cc, cerr := NewCompressedChunk(addrs[i], data[e.Offset():e.Offset()+uint64(e.Length())])
+			verifAssert(cerr == nil, "checksum-valid")
+			if cerr == nil {
+				verifAssert(verifBytesEq(cc.CompressedData[1:], datas[i]), "payload-bytes")
+			}
+		}
+	}
+	verifAssert(end == split, "chunk-records-end-at-the-split-offset")
+	verifCover(verifAnd(fresh == 1, n == 2), "one-chunk-dropped")
+	verifReach("end")
+}
